@@ -181,16 +181,21 @@ def insert_tolls(tree, subset, placement):
 
 
 def model_obs(m):
-    """-> (actions {(comp,tensor,action): v}, usage {mem: v}, toll columns with nonzero occupancy, energy, latency)"""
-    acts = {k: float(v) for k, v in m.actions(per_component=True, per_tensor=True).items()}
-    ru = {k: float(v) for k, v in m.resource_usage().items()}
+    """-> (actions {(comp,tensor,action): v}, usage {mem: v}, toll reservation/usage columns, energy, latency),
+    read from the raw `<SEP>` columns of the single-row model table (the accessors of Mappings are C28's subject
+    and cost a third of a model evaluation each)."""
     row = m.data.iloc[0]
-    occ = []
+    acts, ru, occ = {}, {}, []
     for c in m.data.columns:
         parts = c.split("<SEP>")
+        if len(parts) == 5 and parts[1] == "action":
+            k = (parts[2], parts[3], parts[4])
+            acts[k] = acts.get(k, 0.0) + float(row[c])
+        elif parts[0] == "reservation" and len(parts) == 4:
+            ru[parts[1]] = max(ru.get(parts[1], 0.0), float(row[c]))
         if TOLL in parts and ("reservation" in parts or "usage" in parts):
             occ.append((c, float(row[c])))
-    return acts, ru, occ, float(m.energy()), float(m.latency())
+    return acts, ru, occ, float(row["Total<SEP>energy"]), float(row["Total<SEP>latency"])
 
 
 _BASE: dict = {}
